@@ -80,12 +80,21 @@ def check(case):
         if policy is not None:
             kw["distribute"] = policy
         bad_names = names is not None and factor >= 2 and (len(names) != factor - 1 or len(set(names)) != len(names) or any(n in segs for n in names))
+        bad_policy = policy not in (None, "off", "auto", "equal", "L", "R")
         try:
             g.multiply(target, factor, **kw)
+            if bad_policy and factor >= 0:
+                fail("unknown-policy-accepted", "%r" % (policy,))
+                return dict(key=case, nontrivial=True, failures=fails)
             if bad_names:
                 fail("unusable-copy-names-accepted", "%r for factor %d" % (names, factor))
                 return dict(key=case, nontrivial=True, failures=fails)
         except (gfapy.ArgumentError, gfapy.NotUniqueError) as e:
+            if bad_policy and isinstance(e, gfapy.ArgumentError):
+                # an unknown policy is refused before anything is changed
+                if str(g) != before or state.wf_errors(g):
+                    fail("refused-policy-changed-graph", "%r: %s" % (policy, harness.short(e, 80)))
+                return dict(key=case, nontrivial=True, failures=fails)
             if bad_names:
                 if str(g) != before or state.wf_errors(g):
                     fail("refused-copy-names-changed-graph", "%r: %s" % (names, harness.short(e, 80)))
@@ -325,6 +334,8 @@ def cases(tier, seed):
                 lines.append("C\t%s\t%s\t%s\t%s\t%d\t*%s%s" % (a, oa, b, ob, rng.randrange(3), rng.choice(["", "\tRC:i:6"]), idt))
         factor = rng.choice([-1, 0, 1, 2, 2, 3, 3, 4])
         policy = rng.choice([None, None, "off", "auto", "equal", "L", "R"])
+        if rng.random() < 0.04:
+            policy = rng.choice(["foo", "r", "left"])              # not a policy
         names = None
         if factor >= 2 and rng.random() < 0.3:
             names = tuple("cp%d" % i for i in range(factor - 1))
